@@ -494,3 +494,328 @@ fn dt_div_f64_exact_quotients_bounded() {
     let r = v.div_f64(k as f64);
     assert!(r.is_ok() && r.unwrap().usecs() == q as i64);
 }
+
+// ------------------------------------------------------------------ C15: serde, compact binary form
+mod kserde {
+    use super::*;
+    use crate::OracleDate;
+    use serde_crate::de::{self, Deserialize, Deserializer, Visitor};
+    use serde_crate::ser::{self, Impossible, Serialize, Serializer};
+    use core::fmt;
+
+    #[derive(Debug)]
+    pub struct KErr;
+    impl fmt::Display for KErr {
+        fn fmt(&self, _f: &mut fmt::Formatter) -> fmt::Result { Ok(()) }
+    }
+    impl std::error::Error for KErr {}
+    impl de::Error for KErr {
+        fn custom<T: fmt::Display>(_msg: T) -> Self { KErr }
+    }
+    impl ser::Error for KErr {
+        fn custom<T: fmt::Display>(_msg: T) -> Self { KErr }
+    }
+
+    /// a non-human-readable deserializer holding one raw integer
+    pub enum Raw { I32(i32), I64(i64) }
+    impl<'de> Deserializer<'de> for Raw {
+        type Error = KErr;
+        fn deserialize_any<V: Visitor<'de>>(self, visitor: V) -> Result<V::Value, KErr> {
+            match self { Raw::I32(v) => visitor.visit_i32(v), Raw::I64(v) => visitor.visit_i64(v) }
+        }
+        fn is_human_readable(&self) -> bool { false }
+        serde_crate::forward_to_deserialize_any! {
+            bool i8 i16 i32 i64 i128 u8 u16 u32 u64 u128 f32 f64 char str string bytes byte_buf option unit unit_struct
+            newtype_struct seq tuple tuple_struct map struct enum identifier ignored_any
+        }
+    }
+
+    /// a non-human-readable serializer that records the one primitive written
+    #[derive(PartialEq, Debug)]
+    pub enum Rec { I32(i32), I64(i64), Other }
+    pub struct RecSer;
+    impl Serializer for RecSer {
+        type Ok = Rec;
+        type Error = KErr;
+        type SerializeSeq = Impossible<Rec, KErr>;
+        type SerializeTuple = Impossible<Rec, KErr>;
+        type SerializeTupleStruct = Impossible<Rec, KErr>;
+        type SerializeTupleVariant = Impossible<Rec, KErr>;
+        type SerializeMap = Impossible<Rec, KErr>;
+        type SerializeStruct = Impossible<Rec, KErr>;
+        type SerializeStructVariant = Impossible<Rec, KErr>;
+        fn is_human_readable(&self) -> bool { false }
+        fn serialize_i32(self, v: i32) -> Result<Rec, KErr> { Ok(Rec::I32(v)) }
+        fn serialize_i64(self, v: i64) -> Result<Rec, KErr> { Ok(Rec::I64(v)) }
+        fn serialize_bool(self, _v: bool) -> Result<Rec, KErr> { Ok(Rec::Other) }
+        fn serialize_i8(self, _v: i8) -> Result<Rec, KErr> { Ok(Rec::Other) }
+        fn serialize_i16(self, _v: i16) -> Result<Rec, KErr> { Ok(Rec::Other) }
+        fn serialize_u8(self, _v: u8) -> Result<Rec, KErr> { Ok(Rec::Other) }
+        fn serialize_u16(self, _v: u16) -> Result<Rec, KErr> { Ok(Rec::Other) }
+        fn serialize_u32(self, _v: u32) -> Result<Rec, KErr> { Ok(Rec::Other) }
+        fn serialize_u64(self, _v: u64) -> Result<Rec, KErr> { Ok(Rec::Other) }
+        fn serialize_f32(self, _v: f32) -> Result<Rec, KErr> { Ok(Rec::Other) }
+        fn serialize_f64(self, _v: f64) -> Result<Rec, KErr> { Ok(Rec::Other) }
+        fn serialize_char(self, _v: char) -> Result<Rec, KErr> { Ok(Rec::Other) }
+        fn serialize_str(self, _v: &str) -> Result<Rec, KErr> { Ok(Rec::Other) }
+        fn serialize_bytes(self, _v: &[u8]) -> Result<Rec, KErr> { Ok(Rec::Other) }
+        fn serialize_none(self) -> Result<Rec, KErr> { Ok(Rec::Other) }
+        fn serialize_some<T: ?Sized + Serialize>(self, _value: &T) -> Result<Rec, KErr> { Ok(Rec::Other) }
+        fn serialize_unit(self) -> Result<Rec, KErr> { Ok(Rec::Other) }
+        fn serialize_unit_struct(self, _name: &'static str) -> Result<Rec, KErr> { Ok(Rec::Other) }
+        fn serialize_unit_variant(self, _n: &'static str, _i: u32, _v: &'static str) -> Result<Rec, KErr> { Ok(Rec::Other) }
+        fn serialize_newtype_struct<T: ?Sized + Serialize>(self, _n: &'static str, _v: &T) -> Result<Rec, KErr> { Ok(Rec::Other) }
+        fn serialize_newtype_variant<T: ?Sized + Serialize>(self, _n: &'static str, _i: u32, _v: &'static str, _val: &T) -> Result<Rec, KErr> { Ok(Rec::Other) }
+        fn serialize_seq(self, _len: Option<usize>) -> Result<Self::SerializeSeq, KErr> { Err(KErr) }
+        fn serialize_tuple(self, _len: usize) -> Result<Self::SerializeTuple, KErr> { Err(KErr) }
+        fn serialize_tuple_struct(self, _n: &'static str, _len: usize) -> Result<Self::SerializeTupleStruct, KErr> { Err(KErr) }
+        fn serialize_tuple_variant(self, _n: &'static str, _i: u32, _v: &'static str, _len: usize) -> Result<Self::SerializeTupleVariant, KErr> { Err(KErr) }
+        fn serialize_map(self, _len: Option<usize>) -> Result<Self::SerializeMap, KErr> { Err(KErr) }
+        fn serialize_struct(self, _n: &'static str, _len: usize) -> Result<Self::SerializeStruct, KErr> { Err(KErr) }
+        fn serialize_struct_variant(self, _n: &'static str, _i: u32, _v: &'static str, _len: usize) -> Result<Self::SerializeStructVariant, KErr> { Err(KErr) }
+    }
+
+    /// the shared static formatters belong to the text form; in the compact form they are never touched
+    /// (the stub fails the proof if they are, and keeps once_cell/parking_lot - which Kani cannot compile - out of reach)
+    pub fn lazy_force_never<T, F: FnOnce() -> T>(_this: &once_cell::sync::Lazy<T, F>) -> &T {
+        panic!("text formatter used in the compact form")
+    }
+
+    // decoding ANY raw integer yields a value inside the documented range (whole seconds for the Oracle date) or an error;
+    // the compact form written is exactly the raw count and decodes to the same value.  One obligation per type.
+    #[kani::proof]
+    #[kani::stub(once_cell::sync::Lazy::force, lazy_force_never)]
+    fn serde_binary_date() {
+        let a: i32 = kani::any();
+        match Date::deserialize(Raw::I32(a)) {
+            Ok(d) => assert!(d.days() == a && a as i64 >= K_DATE_MIN && a as i64 <= K_DATE_MAX),
+            Err(_) => assert!((a as i64) < K_DATE_MIN || a as i64 > K_DATE_MAX),
+        }
+        let d = any_date();
+        assert!(d.serialize(RecSer).unwrap() == Rec::I32(d.days()));
+    }
+
+    #[kani::proof]
+    #[kani::stub(once_cell::sync::Lazy::force, lazy_force_never)]
+    fn serde_binary_interval_ym() {
+        let a: i32 = kani::any();
+        match IntervalYM::deserialize(Raw::I32(a)) {
+            Ok(v) => assert!(v.months() == a && a >= -2_136_000_000 && a <= 2_136_000_000),
+            Err(_) => assert!(a < -2_136_000_000 || a > 2_136_000_000),
+        }
+        let ym = any_ym();
+        assert!(ym.serialize(RecSer).unwrap() == Rec::I32(ym.months()));
+    }
+
+    #[kani::proof]
+    #[kani::stub(once_cell::sync::Lazy::force, lazy_force_never)]
+    fn serde_binary_time() {
+        let b: i64 = kani::any();
+        match Time::deserialize(Raw::I64(b)) {
+            Ok(v) => assert!(v.usecs() == b && b >= 0 && b < K_US_DAY),
+            Err(_) => assert!(b < 0 || b >= K_US_DAY),
+        }
+        let t = any_time();
+        assert!(t.serialize(RecSer).unwrap() == Rec::I64(t.usecs()));
+    }
+
+    #[kani::proof]
+    #[kani::stub(once_cell::sync::Lazy::force, lazy_force_never)]
+    fn serde_binary_timestamp() {
+        let b: i64 = kani::any();
+        match Timestamp::deserialize(Raw::I64(b)) {
+            Ok(v) => assert!(v.usecs() == b && b >= K_TS_MIN && b <= K_TS_MAX),
+            Err(_) => assert!(b < K_TS_MIN || b > K_TS_MAX),
+        }
+        let ts = any_timestamp();
+        assert!(ts.serialize(RecSer).unwrap() == Rec::I64(ts.usecs()));
+    }
+
+    #[kani::proof]
+    #[kani::stub(once_cell::sync::Lazy::force, lazy_force_never)]
+    fn serde_binary_interval_dt() {
+        let b: i64 = kani::any();
+        match IntervalDT::deserialize(Raw::I64(b)) {
+            Ok(v) => assert!(v.usecs() == b && b >= -8_640_000_000_000_000_000 && b <= 8_640_000_000_000_000_000),
+            Err(_) => assert!(b < -8_640_000_000_000_000_000 || b > 8_640_000_000_000_000_000),
+        }
+        let dt = any_dt();
+        assert!(dt.serialize(RecSer).unwrap() == Rec::I64(dt.usecs()));
+    }
+
+    pub static mut K_OD_ARG: i64 = 0;
+    pub static mut K_OD_CALLS: u32 = 0;
+    /// `oracle::Date::try_from_usecs` replaced by "records its argument, returns an arbitrary result";
+    /// its own contract (Ok iff in range and a whole second) is proved in Verus
+    pub fn od_try_from_usecs_probe(usecs: i64) -> Result<OracleDate, Error> {
+        unsafe { K_OD_ARG = usecs; K_OD_CALLS += 1; }
+        if kani::any() { Ok(OracleDate::from(any_timestamp())) } else { Err(Error::DateOutOfRange) }
+    }
+
+    /// the compact form of the Oracle-style date goes through the checked constructor with the raw count, exactly once
+    #[kani::proof]
+    #[kani::stub(once_cell::sync::Lazy::force, lazy_force_never)]
+    #[kani::stub(crate::oracle::Date::try_from_usecs, od_try_from_usecs_probe)]
+    fn serde_binary_oracle_date() {
+        let b: i64 = kani::any();
+        unsafe { K_OD_CALLS = 0; }
+        let r = OracleDate::deserialize(Raw::I64(b));
+        assert!(unsafe { K_OD_CALLS } == 1 && unsafe { K_OD_ARG } == b);
+        let od = OracleDate::from(any_timestamp());
+        assert!(od.serialize(RecSer).unwrap() == Rec::I64(od.usecs()));
+    }
+}
+
+// ------------------------------------------------------------------ C16 / C02: Oracle-style date, fractional days
+/// exact nearest-second rounding, observed with a zero offset and with whole/half-second offsets (products are exact)
+#[kani::proof]
+fn od_add_days_consts_bounded() {
+    use crate::OracleDate;
+    let od = OracleDate::from(any_timestamp());
+    let base = od.usecs();
+    // 0.5 day, one second (1/86400 is not exact: use dyadic day fractions), -1 day, 2^-20 day (= 82397.46.. us -> rounds to 82397 us)
+    let r0 = od.add_days(0.0);
+    assert!(r0.is_ok() && r0.unwrap().usecs() == base);
+    let r1 = od.add_days(0.5);
+    if base + 43_200_000_000 <= K_TS_MAX { assert!(r1.unwrap().usecs() == base + 43_200_000_000); } else { assert!(r1.is_err()); }
+    let r2 = od.sub_days(1.0);
+    if base - K_US_DAY >= K_TS_MIN { assert!(r2.unwrap().usecs() == base - K_US_DAY); } else { assert!(r2.is_err()); }
+    // 2^-20 day = 82_397.4609375 us -> timestamp offset 82_397 us -> nearest second = base
+    let r3 = od.add_days(0.00000095367431640625);
+    assert!(r3.is_ok() && r3.unwrap().usecs() == base);
+    // 0.00001 day = 864_000 us -> rounds up to the next second; at the last second of the range that is an error
+    let r4 = od.add_days(0.00001);
+    if base + 1_000_000 <= K_TS_MAX { assert!(r4.is_ok() && r4.unwrap().usecs() == base + 1_000_000); } else { assert!(r4.is_err()); }
+}
+
+/// sub_date: whole-day differences are exact
+#[kani::proof]
+fn od_sub_date_whole_days_bounded() {
+    use crate::OracleDate;
+    let a = any_date();
+    let k: i16 = kani::any();
+    let b = a.add_days(k as i32);
+    kani::assume(b.is_ok());
+    let oa = OracleDate::from(Timestamp::from(a));
+    let ob = OracleDate::from(Timestamp::from(b.unwrap()));
+    assert!(ob.sub_date(oa) == k as f64);
+    assert!(oa.sub_date(ob) == -(k as f64));
+}
+
+// ------------------------------------------------------------------ C08: Timestamp::add_days
+/// the logic after the multiplication, for offsets whose product is exact (dyadic fractions of a day):
+/// Ok exactly when the exact result is in range, NaN / infinity classified
+#[kani::proof]
+fn ts_add_days_consts_bounded() {
+    let ts = any_timestamp();
+    let base = ts.usecs();
+    assert!(ts.add_days(f64::NAN) == Err(Error::InvalidNumber));
+    assert!(ts.add_days(f64::INFINITY) == Err(Error::NumericOverflow));
+    assert!(ts.add_days(f64::NEG_INFINITY) == Err(Error::NumericOverflow));
+    assert!(ts.add_days(1e300) == Err(Error::NumericOverflow));   // the product overflows to infinity
+    assert!(ts.add_days(1e200) == Err(Error::DateOutOfRange));
+    let offs: [(f64, i64); 7] = [(0.0, 0), (1.0, K_US_DAY), (-1.0, -K_US_DAY), (0.5, K_US_DAY / 2), (-0.25, -K_US_DAY / 4),
+                                 (0.00000095367431640625, 82_397), (-0.00000095367431640625, -82_397)];
+    let mut i = 0;
+    while i < 7 {
+        let (d, us) = offs[i];
+        let r = ts.add_days(d);
+        let e = base + us;
+        if e >= K_TS_MIN && e <= K_TS_MAX { assert!(r.is_ok() && r.unwrap().usecs() == e); } else { assert!(r == Err(Error::DateOutOfRange)); }
+        let r2 = ts.sub_days(d);
+        let e2 = base - us;
+        if e2 >= K_TS_MIN && e2 <= K_TS_MAX { assert!(r2.is_ok() && r2.unwrap().usecs() == e2); } else { assert!(r2 == Err(Error::DateOutOfRange)); }
+        i += 1;
+    }
+}
+
+/// every double: the result, if any, is in range (C02) and no panic (C03)
+#[kani::proof]
+fn ts_add_days_range() {
+    let ts = any_timestamp();
+    let d: f64 = kani::any();
+    if let Ok(v) = ts.add_days(d) {
+        assert!(v.usecs() >= K_TS_MIN && v.usecs() <= K_TS_MAX);
+        assert!(!d.is_nan() && !d.is_infinite());
+    }
+}
+
+// ------------------------------------------------------------------ C18: the clock
+// `chrono::Local::now` is replaced by a symbolic clock built through chrono's own constructors, so that
+// naive_local() and the Datelike/Timelike accessors are chrono's real code.  Calls are counted.
+pub static mut K_NOW_CALLS: u32 = 0;
+pub static mut K_CLOCK: [u32; 7] = [2000, 1, 1, 0, 0, 0, 0];
+
+pub fn stub_now() -> chrono::DateTime<chrono::Local> {
+    unsafe { K_NOW_CALLS += 1; }
+    let c = unsafe { K_CLOCK };
+    let nd = chrono::NaiveDate::from_ymd_opt(c[0] as i32, c[1], c[2]).unwrap();
+    let nt = nd.and_hms_micro_opt(c[3], c[4], c[5], c[6]).unwrap();
+    chrono::DateTime::<chrono::Local>::from_naive_utc_and_offset(nt, chrono::FixedOffset::east_opt(0).unwrap())
+}
+
+/// a symbolic current local date and time (years 1..=9999 unless `any_year`)
+pub fn set_any_clock(any_year: bool) -> [u32; 7] {
+    let c: [u32; 7] = [kani::any(), kani::any(), kani::any(), kani::any(), kani::any(), kani::any(), kani::any()];
+    if any_year {
+        kani::assume(c[0] <= 10_001);
+        kani::assume(c[1] >= 1 && c[1] <= 12 && c[2] >= 1 && (c[2] as i64) <= k_mdays(c[0] as i64, c[1] as i64));
+    } else {
+        kani::assume(k_date_ok(c[0] as i64, c[1] as i64, c[2] as i64));
+    }
+    kani::assume(c[3] < 24 && c[4] < 60 && c[5] < 60 && c[6] < 1_000_000);
+    unsafe { K_CLOCK = c; K_NOW_CALLS = 0; }
+    c
+}
+
+/// the `now` constructors report the current local date and time
+#[kani::proof]
+#[kani::stub(chrono::Local::now, stub_now)]
+fn clock_now_date() {
+    let c = set_any_clock(false);
+    let day = k_dn(c[0] as i64, c[1] as i64, c[2] as i64);
+    let d = Date::now();
+    assert!(d.is_ok() && d.unwrap().days() as i64 == day);
+    assert!(unsafe { K_NOW_CALLS } == 1);
+}
+
+#[kani::proof]
+#[kani::stub(chrono::Local::now, stub_now)]
+fn clock_now_timestamp() {
+    use crate::OracleDate;
+    let c = set_any_clock(false);
+    let day = k_dn(c[0] as i64, c[1] as i64, c[2] as i64);
+    let tod = k_hms_us(c[3] as i64, c[4] as i64, c[5] as i64, c[6] as i64);
+    let ts = Timestamp::now();
+    assert!(ts.is_ok() && ts.unwrap().usecs() == day * K_US_DAY + tod);
+    let od = OracleDate::now();
+    assert!(od.is_ok() && od.unwrap().usecs() == day * K_US_DAY + tod - c[6] as i64);
+}
+
+/// time of day -> timestamp / Oracle-style date on the current local date
+#[kani::proof]
+#[kani::stub(chrono::Local::now, stub_now)]
+fn clock_time_to_timestamp() {
+    use crate::OracleDate;
+    let c = set_any_clock(false);
+    let day = k_dn(c[0] as i64, c[1] as i64, c[2] as i64);
+    let s: i64 = kani::any();
+    let f: i64 = kani::any();
+    kani::assume(s >= 0 && s < 86_400 && f >= 0 && f < 1_000_000);
+    let t = Time::try_from_usecs(s * 1_000_000 + f).unwrap();
+    let a = Timestamp::try_from(t);
+    assert!(a.is_ok() && a.unwrap().usecs() == day * K_US_DAY + s * 1_000_000 + f);
+    let b = OracleDate::try_from(t);
+    assert!(b.is_ok() && b.unwrap().usecs() == day * K_US_DAY + s * 1_000_000);
+}
+
+/// a clock outside years 1..=9999 is reported as an error, never as a wrapped value
+#[kani::proof]
+#[kani::stub(chrono::Local::now, stub_now)]
+fn clock_out_of_range_year() {
+    let c = set_any_clock(true);
+    kani::assume(c[0] == 0 || c[0] >= 10_000);
+    assert!(Date::now().is_err());
+    assert!(Timestamp::now().is_err());
+    assert!(Timestamp::try_from(any_time()).is_err());
+}
